@@ -3,3 +3,5 @@ import MidoProofs.SrcTie.Vlq
 #print axioms Mido.src_vlq_hi_loop
 #print axioms Mido.src_encode_variable_int
 #print axioms Mido.src_encode_variable_int_neg
+#print axioms Mido.src_read_vlq_loop
+#print axioms Mido.src_read_variable_int
